@@ -65,6 +65,8 @@ type Pass struct {
 	Result  reconcile.Result
 	Err     error
 	Writes  int // state-changing non-dry writes issued by this pass
+	Snapshot map[string]any // the reconciled object as first read by this pass
+	Pulled  string // Package controller: class of the package content pulled in this pass ("" = no pull)
 }
 
 type passKey struct{}
